@@ -711,6 +711,7 @@ func cmdCheck(args []string) int {
 	}
 	sweepInv := map[string]map[int][]string{}
 	var sweepDischarged []string
+	var sweepFailed []string // unclaimed sweep obligations with a counterexample: candidates for triage (written to out/)
 	sweepNew := 0
 	unprovedOK := map[string]bool{}
 	for _, n := range bl.Unproved {
@@ -807,6 +808,9 @@ func cmdCheck(args []string) int {
 					violations = append(violations, line)
 				} else {
 					unproved = append(unproved, o.Name)
+					if o.Status == "failed" {
+						sweepFailed = append(sweepFailed, fmt.Sprintf("%s\t%s\t%s", o.Name, o.Pos, strings.ReplaceAll(modelInputs(o), "\n", " ; ")))
+					}
 				}
 			}
 			continue
@@ -875,6 +879,11 @@ func cmdCheck(args []string) int {
 	sort.Strings(newUnproved)
 	if *updateBaseline {
 		sort.Strings(sweepDischarged)
+		if len(sweepFailed) > 0 {
+			sort.Strings(sweepFailed)
+			os.MkdirAll(filepath.Join(verifDir, "out"), 0o755)
+			os.WriteFile(filepath.Join(verifDir, "out", *prop+"-sweep-failed.tsv"), []byte(strings.Join(sweepFailed, "\n")+"\n"), 0o644)
+		}
 		nb := baseline{Unproved: newUnproved, Floor: discharged * 9 / 10, SweepClaimed: sweepDischarged, SweepInv: sweepInv}
 		// known findings are not part of the unproved baseline
 		var keep []string
